@@ -198,6 +198,40 @@ def _molecule_case(E):
     E.eq('molecule.density', lab.density * vol * avogadro_number, lab.mass * 1e24)
 
 
+def _real_materials_case(case, tier, seed):
+    """ground (concrete; not a solver claim): real compounds with labile hydrogen, some with an energy-dependent atom,
+    scalar and vector wavelengths: at the reported match fraction the real SLD does not depend on the volume fraction,
+    equals the reported SLD, and the vector call agrees entry by entry with scalar calls"""
+    import numpy as np
+    from periodictable import nsf, formulas
+    res = dict(paths=1, claims=0, discharged=0, queries=0, distinct=0, violations=[], inconclusive=[], samples=[], solver_s=0.0, complete=True)
+    mats = ['NaOH[1]@2.13n', 'C3H4H[1]3NO2@1.29n', 'Gd(C2H3O2)3(H[1]2O)4@1.61', 'Sm(OH[1])3@4.5', 'Eu[151]Cl3(H[1]2O)6@4.9', 'Cd[113](OH[1])2@4.8',
+            'B(OH[1])3@1.435n']
+    lams = [0.5, 1.0, 1.798, 4.75, 9.0]
+
+    def check(name, ok, vals, obs):
+        res['claims'] += 1
+        if ok:
+            res['discharged'] += 1
+        elif len(res['violations']) < 5:
+            res['violations'].append(dict(case=case.name, claim=name, values=vals, observed=obs, how='concrete'))
+    for m in mats:
+        f = formulas.formula(m)
+        dv, sv = nsf.D2O_match(f, wavelength=np.array(lams))
+        # (a wavelength-independent answer may come back as a scalar: it is compared as a constant vector)
+        dv, sv = np.broadcast_to(dv, (len(lams),)), np.broadcast_to(sv, (len(lams),))
+        for i, l in enumerate(lams):
+            d1, s1 = nsf.D2O_match(f, wavelength=l)
+            check('match_vector_entry[%s]' % m, abs(dv[i] - d1) <= 1e-9 * max(1.0, abs(d1)) and abs(sv[i] - s1) <= 1e-9 * max(1.0, abs(s1)),
+                  {'wavelength': l}, [repr((float(dv[i]), float(sv[i]))), repr((float(d1), float(s1)))])
+            slds = [nsf.D2O_sld(f, volume_fraction=v, D2O_fraction=d1, wavelength=l)[0] for v in (0.0, 0.35, 1.0)]
+            check('match_point_independent_of_volume_fraction[%s]' % m, max(slds) - min(slds) <= 1e-9 * max(1.0, abs(s1)) and abs(slds[0] - s1) <= 1e-9 * max(1.0, abs(s1)),
+                  {'wavelength': l, 'D2O_fraction': float(d1)}, [repr([float(x) for x in slds]), repr(float(s1))])
+    res['queries'] = res['distinct'] = res['claims']
+    res['samples'] = [dict(materials=mats, wavelengths=lams)]
+    return res
+
+
 def cases(tier):
     th = tier == 'thorough'
     mp = 64 if not th else 512
@@ -216,6 +250,7 @@ def cases(tier):
         out.append(Case('d2o_sld_via_replace[X+H1]', _sld_case(('X', 'H1'), 'density', True), max_paths=mp, timeout_ms=to, portfolio=th,
                         mode={'max': 'ite'}, budget_s=1500))
     out.append(Case('d2o_sld_energy_dependent_atom', _edep_wavelength_case, max_paths=mp, timeout_ms=to, mode={'max': 'ite'}, budget_s=600, portfolio=th))
+    out.append(Case('real_materials_match_point_ground', None, custom=_real_materials_case))
     out.append(Case('no_labile_hydrogen', _no_labile_case, max_paths=mp, timeout_ms=to, mode={'max': 'ite'}))
     out.append(Case('fasta_molecule', _molecule_case, max_paths=mp, timeout_ms=to, budget_s=600, mode={'max': 'ite'}))
     return out
